@@ -179,7 +179,10 @@ func (fs *Filespace) Writer(destPath string) (writer filesystem.Writer, err erro
 		}
 		file.time = time.Now()
 	}
-	return NewFileHandler(file), nil
+	handler := NewFileHandler(file)
+	// a writer replaces the previous content (like os.Create)
+	file.data = []byte{}
+	return handler, nil
 }
 
 // Reader return a file node reader
